@@ -121,10 +121,14 @@ func isStringType(typeName string) bool {
 type SchemaFromRefFn func(spec.Ref) (*spec.Schema, string)
 
 func propertiesFor(schema *spec.Schema, getRefFn SchemaFromRefFn) PropertyMap {
+	props := PropertyMap{}
 	if isRefType(schema) {
 		schema, _ = getRefFn(schema.Ref)
+		if schema == nil {
+			// a $ref which does not name a definition of the document brings no property
+			return props
+		}
 	}
-	props := PropertyMap{}
 
 	requiredProps := schema.Required
 	requiredMap := map[string]bool{}
